@@ -28,7 +28,7 @@ ASSUMPTIONS = ['relative precedence of & versus + - * / is not fixed by the stat
 SPEC = {'=': (1, 'left'), '<>': (1, 'left'), '<': (1, 'left'), '>': (1, 'left'), '<=': (1, 'left'), '>=': (1, 'left'),
         '+': (2, 'left'), '-': (2, 'left'), '*': (3, 'left'), '/': (3, 'left'), '&': (4, 'left')}
 PRIMES = [2, 3, 5, 7, 11, 13, 17, 19, 23, 29, 31, 37, 41, 43, 47]
-VARS = {'va': 53, 'vb': 59, 'v_c': 61, 'rate1x': 67}
+VARS = {'va': 53, 'vb': 59, 'v_c': 61, 'rate_x': 67}
 CELLS = {'A1': 71, 'B2': 73, '$C$3': 79, 'D$4': 83, '$E5': 89}
 
 _tp = [None]
@@ -251,6 +251,9 @@ def exact(t):
         b = exact(t[3])
         if op == '&':
             return text(a) + text(b)
+        if op in ('=', '<>', '<', '>', '<=', '>=') and (isinstance(a, bool) != isinstance(b, bool)):
+            # C07: every number is less than every logical
+            a, b = (Fraction(1), Fraction(0)) if isinstance(a, bool) else (Fraction(0), Fraction(1))
         a, b = num(a), num(b)
         if op == '+':
             return a + b
@@ -385,7 +388,7 @@ def agree(c, impl_ans, model_ans):
         if fx.parse_sexp(tree) != mtree:
             return False
         # (b) evaluation
-        r = fx.record_matches(mrec, rec)
+        r = fx.record_matches(mrec, rec, rel=1e-9)
         if r is False:
             return False
     return True
